@@ -453,12 +453,20 @@ pub enum Pool {
     Mixed,
     /// restricted to what the serde-xml-rs preset property allows (no prefixes / xmlns)
     NoNamespace,
+    /// names whose identifiers collide (separator / case variants, suffix look-alikes)
+    Collide,
 }
 
 pub fn pool_names(pool: Pool, for_attrs: bool) -> Vec<&'static str> {
     let mut v: Vec<&'static str> = Vec::new();
     match pool {
         Pool::Plain => v.extend_from_slice(PLAIN),
+        Pool::Collide => {
+            v.extend_from_slice(SEPARATORS);
+            v.extend_from_slice(CASE_VARIANTS);
+            v.extend_from_slice(SUFFIXY);
+            v.extend_from_slice(&["a", "b", "type", "Type", "p:a-b", "q:a_b"]);
+        }
         Pool::Adversarial | Pool::Mixed | Pool::NoNamespace => {
             v.extend_from_slice(PLAIN);
             v.extend_from_slice(KEYWORDS);
